@@ -57,8 +57,8 @@ ZPRE = "key 'z' of db 0 holds a sorted set built directly (%s, production key ty
 # measured (3 in parallel, fs_array 4096): zrange_rest 62 s, zrange_kf 63 s, zrank 45 s, zrangebyscore 245 s, zadd_kf 286 s,
 # zincrby_kf 279 s; thorough: zincrby_rest 634 s, zadd_rest 374 s alone but at the 14 GB limit (went out of memory once
 # when run next to two other harnesses) -> thorough, run it with VERIF_JOBS <= 3
-def Z(name, tier, desc, enc, shape, expect="hold", timeout=1500, native=True, assumptions=()):
-    K(name, "zse", ["C04"], tier=tier, timeout=timeout, memsafe=True, fs_array=4096, extra=NOREACH, native_replay=native, expect=expect,
+def Z(name, tier, desc, enc, shape, expect="hold", timeout=1500, native=True, assumptions=(), mem_gb=None):
+    K(name, "zse", ["C04"], tier=tier, timeout=timeout, memsafe=True, fs_array=4096, extra=NOREACH, native_replay=native, expect=expect, mem_gb=mem_gb,
       desc=desc, encodes=enc, bounds=ZPRE % shape, stubs=ZSE_STUBS, assumptions=list(assumptions))
 
 
@@ -69,7 +69,7 @@ Z("c04_e_zrange_kf", "quick", "same inside region R = stop < -len || (reverse &&
   ["StorageEngine::zrange"], "2 members, towers (1,1)", expect="hold")
 Z("c04_e_zadd_rest", "thorough", "ZADD z score m on an existing set, any member byte, any non-NaN score: reply = is-new, member present once with latest score, others unchanged, invariant holds, key still a sorted set",
   ["StorageEngine::zadd", "SkipList::insert", "SkipList::insert_new_node", "SkipList::remove_node_by_score"], "1 member, tower (1), new tower level 1",
-  native=False, assumptions=["score is not NaN"])
+  native=False, assumptions=["score is not NaN"], mem_gb=30)
 Z("c04_e_zadd_kf", "quick", "ZADD with a NaN score must be refused and change nothing: expected to fail (engine stores NaN; the member can then never be removed)",
   ["StorageEngine::zadd"], "1 member, tower (1), new tower level 1", expect="hold", native=False)
 Z("c04_e_zincrby_rest", "thorough", "ZINCRBY z incr m on an existing set, any member byte, any increment whose result is a number: reply == old + incr (incr for a new member), set updated accordingly, invariant holds",
